@@ -27,6 +27,9 @@
 
 #include <atomic>
 #include <cstddef>
+#if defined(PIKA_VERIF)
+#include <cstdint>
+#endif
 #include <memory>
 #include <new>
 #include <type_traits>
@@ -184,16 +187,28 @@ namespace pika::concurrency::detail {
 
         node* alloc_node(node* lptr, node* rptr, T const& v, tag_t ltag = 0, tag_t rtag = 0)
         {
+#if defined(PIKA_VERIF)
+            PIKA_VERIF_POINT(1711, this, (std::uint64_t) (0), 0);
+#endif
             node* chunk = pool_.allocate();
             if (chunk == nullptr) { throw std::bad_alloc(); }
+#if defined(PIKA_VERIF)
+            PIKA_VERIF_POINT(1712, this, (std::uint64_t) (chunk), 0);
+#endif
             new (chunk) node(lptr, rptr, v, ltag, rtag);
             return chunk;
         }
 
         node* alloc_node(node* lptr, node* rptr, T&& v, tag_t ltag = 0, tag_t rtag = 0)
         {
+#if defined(PIKA_VERIF)
+            PIKA_VERIF_POINT(1711, this, (std::uint64_t) (0), 0);
+#endif
             node* chunk = pool_.allocate();
             if (chunk == nullptr) { throw std::bad_alloc(); }
+#if defined(PIKA_VERIF)
+            PIKA_VERIF_POINT(1712, this, (std::uint64_t) (chunk), 0);
+#endif
             new (chunk) node(lptr, rptr, std::move(v), ltag, rtag);
             return chunk;
         }
@@ -211,26 +226,44 @@ namespace pika::concurrency::detail {
         {
             // Get the right node of the leftmost pointer held by lrs and its ABA
             // tag (tagged_ptr).
+#if defined(PIKA_VERIF)
+            PIKA_VERIF_POINT(1715, this, (std::uint64_t) (lrs.get_left_ptr()), 5);
+#endif
             node_pointer prev = lrs.get_left_ptr()->right.load(std::memory_order_acquire);
 
+#if defined(PIKA_VERIF)
+            PIKA_VERIF_POINT(1714, this, (std::uint64_t) (0), 5);
+#endif
             if (anchor_ != lrs) return;
 
             // Get the left node of prev and its tag (again, a tuple represented by
             // a tagged_ptr).
+#if defined(PIKA_VERIF)
+            PIKA_VERIF_POINT(1715, this, (std::uint64_t) (prev.get_ptr()), 5);
+#endif
             node_pointer prevnext = prev.get_ptr()->left.load(std::memory_order_acquire);
 
             // Check if prevnext is equal to r.
             if (prevnext.get_ptr() != lrs.get_left_ptr())
             {
+#if defined(PIKA_VERIF)
+                PIKA_VERIF_POINT(1714, this, (std::uint64_t) (0), 5);
+#endif
                 if (anchor_ != lrs) return;
 
                 // Attempt the CAS, incrementing the tag to protect from the ABA
                 // problem.
+#if defined(PIKA_VERIF)
+                PIKA_VERIF_POINT(1717, this, (std::uint64_t) (prev.get_ptr()), 5);
+#endif
                 if (!prev.get_ptr()->left.compare_exchange_strong(
                         prevnext, node_pointer(lrs.get_left_ptr(), prevnext.get_tag() + 1)))
                     return;
             }
             // Try to update the anchor, modifying the status and ABA tag.
+#if defined(PIKA_VERIF)
+            PIKA_VERIF_POINT(1718, this, (std::uint64_t) (0), 5);
+#endif
             anchor_.cas(lrs,
                 anchor_pair(
                     lrs.get_left_ptr(), lrs.get_right_ptr(), stable, lrs.get_right_tag() + 1));
@@ -240,26 +273,44 @@ namespace pika::concurrency::detail {
         {
             // Get the left node of the rightmost pointer held by lrs and its ABA
             // tag (tagged_ptr).
+#if defined(PIKA_VERIF)
+            PIKA_VERIF_POINT(1715, this, (std::uint64_t) (lrs.get_right_ptr()), 6);
+#endif
             node_pointer prev = lrs.get_right_ptr()->left.load(std::memory_order_acquire);
 
+#if defined(PIKA_VERIF)
+            PIKA_VERIF_POINT(1714, this, (std::uint64_t) (0), 6);
+#endif
             if (anchor_ != lrs) return;
 
             // Get the right node of prev and its tag (again, a tuple represented
             // by a tagged_ptr).
+#if defined(PIKA_VERIF)
+            PIKA_VERIF_POINT(1715, this, (std::uint64_t) (prev.get_ptr()), 6);
+#endif
             node_pointer prevnext = prev.get_ptr()->right.load(std::memory_order_acquire);
 
             // Check if prevnext is equal to r.
             if (prevnext.get_ptr() != lrs.get_right_ptr())
             {
+#if defined(PIKA_VERIF)
+                PIKA_VERIF_POINT(1714, this, (std::uint64_t) (0), 6);
+#endif
                 if (anchor_ != lrs) return;
 
                 // Attempt the CAS, incrementing the tag to protect from the ABA
                 // problem.
+#if defined(PIKA_VERIF)
+                PIKA_VERIF_POINT(1717, this, (std::uint64_t) (prev.get_ptr()), 6);
+#endif
                 if (!prev.get_ptr()->right.compare_exchange_strong(
                         prevnext, node_pointer(lrs.get_right_ptr(), prevnext.get_tag() + 1)))
                     return;
             }
             // Try to update the anchor, modifying the status and ABA tag.
+#if defined(PIKA_VERIF)
+            PIKA_VERIF_POINT(1718, this, (std::uint64_t) (0), 6);
+#endif
             anchor_.cas(lrs,
                 anchor_pair(
                     lrs.get_left_ptr(), lrs.get_right_ptr(), stable, lrs.get_right_tag() + 1));
@@ -322,6 +373,9 @@ namespace pika::concurrency::detail {
             while (true)
             {
                 // Load the anchor.
+#if defined(PIKA_VERIF)
+                PIKA_VERIF_POINT(1713, this, (std::uint64_t) (0), 1);
+#endif
                 anchor_pair lrs = anchor_.lrs(std::memory_order_relaxed);
 
                 // Check if the deque is empty.
@@ -331,6 +385,9 @@ namespace pika::concurrency::detail {
                     // If the deque is empty, we simply install a new anchor which
                     // points to the new node as both its leftmost and rightmost
                     // element.
+#if defined(PIKA_VERIF)
+                    PIKA_VERIF_POINT(1718, this, (std::uint64_t) (0), 1);
+#endif
                     if (anchor_.cas(
                             lrs, anchor_pair(n, n, lrs.get_left_tag(), lrs.get_right_tag() + 1)))
                         return true;
@@ -341,6 +398,9 @@ namespace pika::concurrency::detail {
                 {
                     // Make the right pointer on our new node refer to the current
                     // leftmost node.
+#if defined(PIKA_VERIF)
+                    PIKA_VERIF_POINT(1716, this, (std::uint64_t) (n), 1);
+#endif
                     n->right.store(node_pointer(lrs.get_left_ptr()));
 
                     // Now we want to make the anchor point to our new node as the
@@ -348,6 +408,9 @@ namespace pika::concurrency::detail {
                     // will become unstable if this operation succeeds.
                     anchor_pair new_anchor(n, lrs.get_right_ptr(), lpush, lrs.get_right_tag() + 1);
 
+#if defined(PIKA_VERIF)
+                    PIKA_VERIF_POINT(1718, this, (std::uint64_t) (0), 1);
+#endif
                     if (anchor_.cas(lrs, new_anchor))
                     {
                         stabilize_left(new_anchor);
@@ -377,6 +440,9 @@ namespace pika::concurrency::detail {
             while (true)
             {
                 // Load the anchor.
+#if defined(PIKA_VERIF)
+                PIKA_VERIF_POINT(1713, this, (std::uint64_t) (0), 2);
+#endif
                 anchor_pair lrs = anchor_.lrs(std::memory_order_relaxed);
 
                 // Check if the deque is empty.
@@ -386,6 +452,9 @@ namespace pika::concurrency::detail {
                     // If the deque is empty, we simply install a new anchor which
                     // points to the new node as both its leftmost and rightmost
                     // element.
+#if defined(PIKA_VERIF)
+                    PIKA_VERIF_POINT(1718, this, (std::uint64_t) (0), 2);
+#endif
                     if (anchor_.cas(
                             lrs, anchor_pair(n, n, lrs.get_left_tag(), lrs.get_right_tag() + 1)))
                         return true;
@@ -396,6 +465,9 @@ namespace pika::concurrency::detail {
                 {
                     // Make the left pointer on our new node refer to the current
                     // rightmost node.
+#if defined(PIKA_VERIF)
+                    PIKA_VERIF_POINT(1716, this, (std::uint64_t) (n), 2);
+#endif
                     n->left.store(node_pointer(lrs.get_right_ptr()));
 
                     // Now we want to make the anchor point to our new node as the
@@ -403,6 +475,9 @@ namespace pika::concurrency::detail {
                     // will become unstable if this operation succeeds.
                     anchor_pair new_anchor(lrs.get_left_ptr(), n, rpush, lrs.get_right_tag() + 1);
 
+#if defined(PIKA_VERIF)
+                    PIKA_VERIF_POINT(1718, this, (std::uint64_t) (0), 2);
+#endif
                     if (anchor_.cas(lrs, new_anchor))
                     {
                         stabilize_right(new_anchor);
@@ -425,6 +500,9 @@ namespace pika::concurrency::detail {
             while (true)
             {
                 // Load the anchor.
+#if defined(PIKA_VERIF)
+                PIKA_VERIF_POINT(1713, this, (std::uint64_t) (0), 3);
+#endif
                 anchor_pair lrs = anchor_.lrs(std::memory_order_relaxed);
 
                 // Check if the deque is empty.
@@ -435,11 +513,17 @@ namespace pika::concurrency::detail {
                 if (lrs.get_left_ptr() == lrs.get_right_ptr())
                 {
                     // Try to set both anchor pointer
+#if defined(PIKA_VERIF)
+                    PIKA_VERIF_POINT(1718, this, (std::uint64_t) (0), 3);
+#endif
                     if (anchor_.cas(lrs,
                             anchor_pair(
                                 nullptr, nullptr, lrs.get_left_tag(), lrs.get_right_tag() + 1)))
                     {
                         // Set the result, deallocate the popped node, and return.
+#if defined(PIKA_VERIF)
+                        PIKA_VERIF_POINT(1719, this, (std::uint64_t) (lrs.get_left_ptr()), 3);
+#endif
                         r = std::move(lrs.get_left_ptr()->data);
                         dealloc_node(lrs.get_left_ptr());
                         return true;
@@ -450,18 +534,30 @@ namespace pika::concurrency::detail {
                 else if (lrs.get_left_tag() == stable)
                 {
                     // Make sure the anchor hasn't changed since we loaded it.
+#if defined(PIKA_VERIF)
+                    PIKA_VERIF_POINT(1714, this, (std::uint64_t) (0), 3);
+#endif
                     if (anchor_ != lrs) continue;
 
                     // Get the leftmost nodes' right node.
+#if defined(PIKA_VERIF)
+                    PIKA_VERIF_POINT(1715, this, (std::uint64_t) (lrs.get_left_ptr()), 3);
+#endif
                     node_pointer prev = lrs.get_left_ptr()->right.load(std::memory_order_acquire);
 
                     // Try to update the anchor to point to prev as the leftmost
                     // node.
+#if defined(PIKA_VERIF)
+                    PIKA_VERIF_POINT(1718, this, (std::uint64_t) (0), 3);
+#endif
                     if (anchor_.cas(lrs,
                             anchor_pair(prev.get_ptr(), lrs.get_right_ptr(), lrs.get_left_tag(),
                                 lrs.get_right_tag() + 1)))
                     {
                         // Set the result, deallocate the popped node, and return.
+#if defined(PIKA_VERIF)
+                        PIKA_VERIF_POINT(1719, this, (std::uint64_t) (lrs.get_left_ptr()), 3);
+#endif
                         r = std::move(lrs.get_left_ptr()->data);
                         dealloc_node(lrs.get_left_ptr());
                         return true;
@@ -485,6 +581,9 @@ namespace pika::concurrency::detail {
             while (true)
             {
                 // Load the anchor.
+#if defined(PIKA_VERIF)
+                PIKA_VERIF_POINT(1713, this, (std::uint64_t) (0), 4);
+#endif
                 anchor_pair lrs = anchor_.lrs(std::memory_order_relaxed);
 
                 // Check if the deque is empty.
@@ -495,11 +594,17 @@ namespace pika::concurrency::detail {
                 if (lrs.get_right_ptr() == lrs.get_left_ptr())
                 {
                     // Try to set both anchor pointer
+#if defined(PIKA_VERIF)
+                    PIKA_VERIF_POINT(1718, this, (std::uint64_t) (0), 4);
+#endif
                     if (anchor_.cas(lrs,
                             anchor_pair(
                                 nullptr, nullptr, lrs.get_left_tag(), lrs.get_right_tag() + 1)))
                     {
                         // Set the result, deallocate the popped node, and return.
+#if defined(PIKA_VERIF)
+                        PIKA_VERIF_POINT(1719, this, (std::uint64_t) (lrs.get_right_ptr()), 4);
+#endif
                         r = std::move(lrs.get_right_ptr()->data);
                         dealloc_node(lrs.get_right_ptr());
                         return true;
@@ -510,18 +615,30 @@ namespace pika::concurrency::detail {
                 else if (lrs.get_left_tag() == stable)
                 {
                     // Make sure the anchor hasn't changed since we loaded it.
+#if defined(PIKA_VERIF)
+                    PIKA_VERIF_POINT(1714, this, (std::uint64_t) (0), 4);
+#endif
                     if (anchor_ != lrs) continue;
 
                     // Get the rightmost nodes' left node.
+#if defined(PIKA_VERIF)
+                    PIKA_VERIF_POINT(1715, this, (std::uint64_t) (lrs.get_right_ptr()), 4);
+#endif
                     node_pointer prev = lrs.get_right_ptr()->left.load(std::memory_order_acquire);
 
                     // Try to update the anchor to point to prev as the rightmost
                     // node.
+#if defined(PIKA_VERIF)
+                    PIKA_VERIF_POINT(1718, this, (std::uint64_t) (0), 4);
+#endif
                     if (anchor_.cas(lrs,
                             anchor_pair(lrs.get_left_ptr(), prev.get_ptr(), lrs.get_left_tag(),
                                 lrs.get_right_tag() + 1)))
                     {
                         // Set the result, deallocate the popped node, and return.
+#if defined(PIKA_VERIF)
+                        PIKA_VERIF_POINT(1719, this, (std::uint64_t) (lrs.get_right_ptr()), 4);
+#endif
                         r = std::move(lrs.get_right_ptr()->data);
                         dealloc_node(lrs.get_right_ptr());
                         return true;
